@@ -7,6 +7,7 @@ import (
 	"encoding/base64"
 	"encoding/hex"
 	"fmt"
+	"math/big"
 	"strings"
 
 	"github.com/vipnode/vipnode/v2/ethnode"
@@ -107,6 +108,25 @@ func c04Alterations(base vh.Call, owner, other *vh.Ident) []c04Alt {
 		// the recovery byte V of a node-style signature is not part of (R,S): not judged
 		add(fmt.Sprintf("sig-byte-%d-flipped", i), "sig-byte", c, !(i == 64 && !wallet))
 	}
+	// the mirror signature (R, N-S): valid for plain ECDSA, but not what the owner produced - a third
+	// party can derive it from any signature it has seen (both recovery-byte variants)
+	if len(raw) >= 64 {
+		n, _ := new(big.Int).SetString("fffffffffffffffffffffffffffffffebaaedce6af48a03bbfd25e8cd0364141", 16)
+		sNeg := new(big.Int).Sub(n, new(big.Int).SetBytes(raw[32:64]))
+		for _, flipV := range []bool{true, false} {
+			b := append([]byte{}, raw...)
+			sNeg.FillBytes(b[32:64])
+			if flipV && len(b) > 64 {
+				b[64] ^= 1
+			}
+			c = base
+			c.Sig = encodeSig(b, wallet)
+			// observed, not judged: the mirror signature is a valid ECDSA signature of the very same
+			// method, identity, nonce and parameters (nothing the owner did not sign is carried out, and
+			// the nonce makes it a replay); recovery-based verification accepts it by construction
+			add(fmt.Sprintf("sig-s-mirrored(flipV=%v)", flipV), "sig-mirrored", c, false)
+		}
+	}
 	for n := 0; n < len(raw); n++ {
 		c = base
 		c.Sig = encodeSig(raw[:n], wallet)
@@ -194,7 +214,7 @@ func c04Unit(endpoint string) vh.Unit {
 					u.Sample(fmt.Sprintf("%s in state %v: %s -> %v", endpoint, prefix, a.label, err))
 				}
 				if !a.judge {
-					u.Count("recovery_byte_flip_accepted_not_judged", 1)
+					u.Count("signature_encoding_variant_not_judged", 1)
 					continue
 				}
 				switch {
@@ -492,6 +512,7 @@ func init() {
 		Assumptions: []string{
 			"flipping the recovery byte V of a node-style signature leaves (R,S) intact and is observed, not judged",
 			"a wallet signature with 0x prefix or V in {27,28} is the same signature in another encoding (not an alteration)",
+			"the mirror signature (R, N-S) of a genuine one signs exactly the same request: whether it is accepted is observed, not judged",
 		},
 		Units: func(tier string) []vh.Unit {
 			var us []vh.Unit
